@@ -1,6 +1,11 @@
 """E0 core: loader, symbol index, MRO, anchors, small AST helpers."""
 from __future__ import annotations
 
+import sys as _sys
+
+# deep if/elif chains (and their copies made by the helper inliner) need more than the default 1000 frames
+_sys.setrecursionlimit(max(_sys.getrecursionlimit(), 20000))
+
 import ast
 import os
 import sys
